@@ -93,6 +93,10 @@ def _split_top(s):
     return out
 
 
+class _Bot(Exception):
+    pass
+
+
 class Ranges:
     def __init__(self, prog, fn):
         self.prog = prog
@@ -100,6 +104,78 @@ class Ranges:
         self.eb = ExprBuilder(prog, fn, user_stop=True)
         self._stack = set()
         self._memo = {}
+        # site-sensitive mode (see at()): ranges of user variables are the join over the definitions
+        # that *reach* the site, iterated to a fixpoint for self-referential updates
+        self.site = None
+        self._rd = {}
+        self._approx = {}
+        self._done = {}
+
+    # ---------------------------------------------------------- reaching definitions
+    def at(self, block, idx=None):
+        """Evaluate subsequent of() calls at the end of `block` (idx None) or just before statement idx."""
+        self.site = (block, idx)
+        return self
+
+    def _def_sites(self, local):
+        out = []
+        for d in self.fn.defs(local):
+            if d[0] in ("assign", "partial"):
+                out.append((d[1], d[2], d))
+            elif d[0] in ("call", "yield"):
+                out.append((d[1], 10**6, d))
+            elif d[0] == "arg":
+                out.append((-1, -1, d))
+        return out
+
+    def _reaching(self, local):
+        """IN sets per block: indices (into _def_sites) of the definitions of `local` reaching the block entry."""
+        if local in self._rd:
+            return self._rd[local]
+        fn = self.fn
+        sites = self._def_sites(local)
+        last = {}
+        for i, (b, j, d) in enumerate(sites):
+            if b >= 0 and d[0] != "partial":
+                if b not in last or sites[last[b]][1] < j:
+                    last[b] = i
+        partial = {}
+        for i, (b, j, d) in enumerate(sites):
+            if d[0] == "partial":
+                partial.setdefault(b, set()).add(i)
+        entry = frozenset(i for i, (b, j, d) in enumerate(sites) if b == -1)
+        IN = {0: entry}
+        work = [0]
+        seen_out = {}
+        while work:
+            b = work.pop()
+            cur = IN.get(b, frozenset())
+            out = frozenset([last[b]]) if b in last else cur
+            out = out | frozenset(partial.get(b, ()))
+            if seen_out.get(b) == out:
+                continue
+            seen_out[b] = out
+            for s_, _l in fn.succs(b):
+                new = IN.get(s_, frozenset()) | out
+                if new != IN.get(s_):
+                    IN[s_] = new
+                    work.append(s_)
+                elif s_ not in seen_out:
+                    work.append(s_)
+        self._rd[local] = (sites, IN)
+        return self._rd[local]
+
+    def _reaching_at(self, local, block, idx):
+        sites, IN = self._reaching(local)
+        cur = set(IN.get(block, frozenset()))
+        lim = 10**7 if idx is None else idx
+        here = sorted((j, i) for i, (b, j, d) in enumerate(sites) if b == block and j < lim)
+        for j, i in here:
+            if sites[i][2][0] == "partial":
+                cur.add(i)
+            else:
+                cur = {i}
+        return [sites[i] for i in sorted(cur)]
 
     def ty_of(self, e):
         k = e[0]
@@ -256,6 +332,8 @@ class Ranges:
         tr = ty_range(e[2])
         if not re.match(r"^[A-Za-z_][A-Za-z0-9_]*$", name) or name == "self":
             return tr
+        if self.site is not None:
+            return self._place_at(name, tr, depth)
         if name in self._memo:
             return self._memo[name]
         if name in self._stack:
@@ -282,6 +360,62 @@ class Ranges:
             self._stack.discard(name)
         self._memo[name] = r
         return r
+
+    def _place_at(self, name, tr, depth):
+        """Range of user variable `name` at self.site: join over the reaching definitions, each evaluated
+        at its own site; self-referential updates are iterated from bottom (a few rounds), then widened
+        to the type range."""
+        locs = [l for vn, l, proj in self.fn.var_places if vn == name and not proj]
+        if len(locs) != 1:
+            return tr
+        l = locs[0]
+        key = (l, self.site)
+        if key in self._done:
+            return self._done[key]
+        if key in self._approx:
+            if self._approx[key] == "BOT":
+                raise _Bot()  # in progress with no approximation yet: this definition contributes nothing this round
+            return self._approx[key]
+        saved = self.site
+        self._approx[key] = "BOT"
+        result = tr
+        try:
+            for _round in range(8):
+                r = "BOT"
+                unknown = False
+                for b, j, d in self._reaching_at(l, saved[0], saved[1]):
+                    if d[0] in ("partial", "arg", "yield"):
+                        unknown = True
+                        break
+                    self.site = (b, j if d[0] == "assign" else None)
+                    x = self.eb._def_expr(d, 0, (l,))
+                    try:
+                        rx = self.of(x, depth + 1)
+                    except _Bot:
+                        continue
+                    if rx is None:
+                        unknown = True
+                        break
+                    r = rx if r == "BOT" else _join(r, rx)
+                self.site = saved
+                if unknown or r == "BOT":
+                    result = tr
+                    break
+                r = _meet(tr, r) if tr else r
+                if r == self._approx[key]:
+                    result = r
+                    break
+                self._approx[key] = r
+                # nested results computed against the previous approximation are stale
+                for k in [k for k in self._done if k != key]:
+                    self._done.pop(k, None)
+            else:
+                result = tr
+        finally:
+            self.site = saved
+            self._approx.pop(key, None)
+        self._done[key] = result
+        return result
 
     def _arith(self, op, a, b, depth):
         ra, rb = self.of(a, depth + 1), self.of(b, depth + 1)
